@@ -211,7 +211,9 @@ impl KeyId {
     /// Return the first 8 hex digits of the key id
     pub fn prefix(&self) -> String {
         assert!(self.0.len() >= 8);
-        self.0[0..8].to_string()
+        // key ids read from metadata are arbitrary strings: never slice
+        // through the middle of a multi-byte character
+        self.0.chars().take(8).collect()
     }
 }
 
